@@ -347,6 +347,18 @@ func (fx *FnExec) ghostSets(st *State, fr *frame, site ssa.Instruction) {
 	}
 	fx.boundAsserts[fnKey(fr.fn)+"@gs:"+name] = true
 	env := fx.siteEnv(st, fr, site)
+	if ret, ok := site.(*ssa.Return); ok {
+		rs := fr.fn.Signature.Results()
+		names := resultNames(fr.fn.Signature)
+		for i, r := range ret.Results {
+			cv := cval{t: st.val(r), typ: rs.At(i).Type(), sort: fx.sortOf(rs.At(i).Type())}
+			env.vars[fmt.Sprintf("result%d", i)] = cv
+			env.vars[names[i]] = cv
+			if rs.Len() == 1 {
+				env.vars["result"] = cv
+			}
+		}
+	}
 	for _, gs := range gss {
 		v, err := env.safeEval(gs.Expr)
 		if err != nil {
@@ -442,7 +454,18 @@ func (fx *FnExec) call(st *State, fr *frame, cc *ssa.CallCommon, args *callArgs,
 			if len(st.clos) > 0 && fx.mayBeClosure(cc.Value) {
 				var cands []Term
 				for t, ci := range st.clos {
+					if fx.onStack(fr, ci.fn) {
+						continue
+					}
 					if types.Identical(ci.fn.Signature, cc.Signature()) || sameSigNoRecv(ci.fn.Signature, cc.Signature()) {
+						cands = append(cands, t)
+					}
+				}
+				for t, f := range fx.funcByConst {
+					if fx.onStack(fr, f) || !fx.inlinable(f) {
+						continue
+					}
+					if types.Identical(f.Signature, cc.Signature()) {
 						cands = append(cands, t)
 					}
 				}
@@ -451,7 +474,11 @@ func (fx *FnExec) call(st *State, fr *frame, cc *ssa.CallCommon, args *callArgs,
 					for _, t := range cands {
 						s2 := st.clone()
 						s2.assume("(= " + args.fval + " " + t + ")")
-						fx.callKnown(s2, fr, st.clos[t].fn, st.clos[t], args, site, mode, k)
+						if ci, isClos := st.clos[t]; isClos {
+							fx.callKnown(s2, fr, ci.fn, ci, args, site, mode, k)
+						} else {
+							fx.callKnown(s2, fr, fx.funcByConst[t], nil, args, site, mode, k)
+						}
 					}
 					for _, t := range cands {
 						st.assume("(not (= " + args.fval + " " + t + "))")
